@@ -35,6 +35,25 @@ def main():
             passed.add(f"{tc.get('classname')}::{tc.get('name')}")
     os.unlink(junit)
     missing = sorted(stable - passed)
+    if missing and workers:
+        # tests that write fixed file names race under xdist: re-run the files of the missing ids serially
+        files = set()
+        for m in missing:
+            parts = m.split("::")[0].split(".")
+            for k in range(len(parts), 0, -1):
+                cand = os.path.join(repo, *parts[:k]) + ".py"
+                if os.path.exists(cand):
+                    files.add(cand)
+                    break
+        if files:
+            fd, junit2 = tempfile.mkstemp(suffix=".xml", dir="/var/tmp"); os.close(fd)
+            cmd2 = [c for c in cmd if not c.startswith("--junitxml") and c not in ("-n", workers)] + ["--junitxml=" + junit2] + sorted(files)
+            subprocess.run(cmd2, cwd=repo, env=env, stdout=subprocess.PIPE, stderr=subprocess.STDOUT, text=True)
+            for tc in ET.parse(junit2).getroot().iter("testcase"):
+                if not any(ch.tag in ("failure", "error", "skipped") for ch in tc):
+                    passed.add(f"{tc.get('classname')}::{tc.get('name')}")
+            os.unlink(junit2)
+            missing = sorted(stable - passed)
     print("pytest:", *tail)
     print(f"baseline stable_pass={len(stable)} passed_now={len(passed)} baseline_missing={len(missing)}")
     for m in missing[:40]:
